@@ -312,6 +312,8 @@ def reader_table(prog: Program, fn: FuncInfo) -> dict[str, REntry]:
                             shadow = True
             else:
                 src = ds[-1][0]
+                if isinstance(src, ast.IfExp):  # error = X if data.get("Error") else None
+                    presence = _presence_of_test(src.test)
         elif isinstance(expr, ast.IfExp):
             presence = _presence_of_test(expr.test)
             src = expr
